@@ -206,6 +206,10 @@ func lazyCases(rng *vh.Rng, thorough bool, rep *vh.Report) []lazyCase {
 // GetDataTable (1 ok, 0 failed, -1 n/a) and whether the object is a StatGeneralPack table
 func retryOne(rep *vh.Report, c lazyCase) (int, bool) {
 	isTable := false
+	if isDead("retry-type:" + c.typ) {
+		rep.Count("retry:skipped-after-established-hang:" + c.typ)
+		return -1, false
+	}
 	rc := replayCase{Mode: "retry", Kind: "pack", Typ: c.typ, Hex: vh.Hex(c.outer), What: c.what}
 	rep.Case("retry:"+c.typ+":"+hash8(c.outer), c.what != "intact")
 	rep.Count("retry:" + c.typ)
@@ -230,6 +234,7 @@ func retryOne(rep *vh.Report, c lazyCase) (int, bool) {
 				rep.Fail("property", c.typ+"."+a.name+":hangs-after-failed-decode",
 					fmt.Sprintf("%s: access #%d through %s never returns (inner payload %s)", c.typ, round, a.name, c.what), rc)
 				hung = true
+				markDead("retry-type:" + c.typ) // established once: the remaining objects of the type are skipped
 				break
 			}
 			if round == 1 {
@@ -270,6 +275,7 @@ func retryOne(rep *vh.Report, c lazyCase) (int, bool) {
 		o := guardPatient(func() { re = pack.ToBytesPack(obj) })
 		if o.Timeout {
 			rep.Fail("property", c.typ+".Write:hangs-after-failed-decode", c.typ+": Write never returns after a failed access ("+c.what+")", rc)
+			markDead("retry-type:" + c.typ)
 			return first, isTable
 		}
 		rep.Count("retry:write-after-failure:" + o.String())
